@@ -29,7 +29,7 @@ REAL = ['py4hw.logic.arithmetic_fxp (FixedPointAdd/Sub/Mult/Sign)', 'py4hw.logic
 STUB = ['stimulus']
 ASSUMPTIONS = ['product = exact signed product floored to the result fraction bits, then reduced modulo the result width',
                'comparator only checked where the signed difference is representable in the operand format']
-PROBES = ['user_class_named_like_a_primitive', 'block_in_gated_domain', 'operands_from_constant_blocks', 'operands_from_helper_constants', 'outputs_read_at_time_zero', 'settled_by_clk0', 'block_added_after_simulation', 'sign_only_format', 'squarer', 'mixed_operand_formats', 'most_negative', 'mult_full_width', 'cmp_representable', 'cmp_unrepresentable_skipped', 'wrap_add']
+PROBES = ['operand_wires_with_one_name', 'user_class_named_like_a_primitive', 'block_in_gated_domain', 'operands_from_constant_blocks', 'operands_from_helper_constants', 'outputs_read_at_time_zero', 'settled_by_clk0', 'block_added_after_simulation', 'sign_only_format', 'squarer', 'mixed_operand_formats', 'most_negative', 'mult_full_width', 'cmp_representable', 'cmp_unrepresentable_skipped', 'wrap_add']
 
 
 def gen(rs, tier, index):
@@ -91,7 +91,8 @@ def gen(rs, tier, index):
             'gated_box': fr.random() < 0.2, 'en_seed': rs.sub('en'),
             # namesake: a user block of the same system whose class is called like a library primitive used inside the
             # fixed-point blocks; it is instantiated first
-            'namesake': fr.choice([None] * 6 + ['Mul', 'Sub', 'SignExtend', 'Range'])}
+            'namesake': fr.choice([None] * 6 + ['Mul', 'Sub', 'SignExtend', 'Range']),
+            'samename': fr.random() < 0.12}
 
 
 class _Box(py4hw.Logic):
@@ -174,6 +175,16 @@ def run(scn, log, st):
         py4hw.Reg(par, 'dreg', feed[0], par.wire('dq', w))
         en_rng = random.Random(scn.get('en_seed', 0))
         st.probe('block_in_gated_domain')
+    if scn.get('samename') and par is hw and not square and blk != 'sign':
+        # the block sits in a user block that takes one operand through a port and makes the other one itself: a local
+        # wire that carries the very name of the wire behind the port (names are unique per owner only)
+        par = _Box(hw, 'scale')
+        par.addIn(feed[0].name, feed[0])
+        par.addIn('other', feed[1])
+        local = par.wire(feed[0].name, wb)
+        py4hw.Buf(par, 'copy', feed[1], local)
+        feed = [feed[0], local]
+        st.probe('operand_wires_with_one_name')
     time_zero = bool(scn.get('time_zero')) and not scn['inregs'] and not scn.get('late_dut') and bool(scn['steps'])
     if time_zero:
         drive(first[0], first[0] if square else first[1])
